@@ -97,8 +97,11 @@ LEAF = [
     "{% doc -%} usage: {% if %} {% form %} {% enddoc %}{%- doc %}{% else %}{% enddoc -%}{{ x }}{% comment -%}{% endif %}{%- endcomment %}",
     "{% comment disabled: for now %}{% if x %}{% nosuchtag a %}{% endfor %}{% endcomment %}{{ x }}{% comment a %}{% when 1 %}{% endcomment %}",
     "{% assign loc = x %}{% capture w %}W{% endcapture %}{% render 'n1', v: y %}{% include 'n1' %}{% render 'n2', v: s %}{{ inner }}",
+    # a loop variable named like what its own loop expression reads; cols that is nil / zero; offsets and indexes before the start
+    "{% for x in x %}{{ x }}{% endfor %}{% for y in xs limit: y %}{{ y }}{% endfor %}{% tablerow e in xs cols: nope %}{{ e }}{{ tablerowloop.row }}{{ tablerowloop.col_last }}{% endtablerow %}",
+    "{% for e in xs offset: -2 limit: 2 %}{{ e }}{% else %}none{% endfor %}{{ xs[-1] }}{{ xs[-4] }}{{ xs[-7] }}{% for e in xs limit: 1 %}{{ e }}{% endfor %}{% for e in xs offset: continue limit: -1 %}{{ e }}{% endfor %}",
 ]
-assert len(WRAP) == 16 and len(LEAF) == 44 and len(WRAP2) == 5   # the bounds in mk_condition's contract
+assert len(WRAP) == 16 and len(LEAF) == 46 and len(WRAP2) == 5   # the bounds in mk_condition's contract
 
 # data sets: nothing defined / ordinary / odd types
 DATA = [
@@ -170,7 +173,7 @@ def mk_condition(name, check, skip=None):
 
     def f(w1: int, leaf: int) -> bool:
         """
-        pre: 0 <= w1 <= 15 and 0 <= leaf <= 43
+        pre: 0 <= w1 <= 15 and 0 <= leaf <= 45
         post: _
         """
         if excluded(name, locals()):
@@ -192,7 +195,7 @@ def outcome(thunk):
         return ("other", type(e).__name__)
 
 
-BOUNDS = "corpus of %d templates = 5 outer constructs x 16 constructs x 44 leaves (harness/corpus.py), 4 fixed data sets" % SIZE
+BOUNDS = "corpus of %d templates = 5 outer constructs x 16 constructs x 46 leaves (harness/corpus.py), 4 fixed data sets" % SIZE
 
 __all__ = ["PARTIALS", "WRAP", "WRAP2", "LEAF", "DATA", "data", "source", "make_env", "template", "Mode",
            "NW2", "NW1", "NLEAF", "NDATA", "SIZE"]
